@@ -215,6 +215,23 @@ func main() {
 		if err != nil {
 			panic(err)
 		}
+		if ci%2 == 0 {
+			// a registry may resolve a descriptor with more fields than the four that are signed (OCI 1.1: artifactType, ...)
+			repo = richRepo{repo}
+		}
+		if ci%3 == 0 {
+			// another signature, by a signer the policy does NOT trust, is attached first: verification must still end with
+			// exactly the outcome of the signature that verifies
+			stranger := lib.SimpleChain("c07-stranger", 0, "EC-256", 2)
+			sg, err := signer.NewGenericSigner(stranger.Key, stranger.Chain())
+			if err != nil {
+				panic(err)
+			}
+			if _, _, err := notation.SignOCI(ctx, sg, repo, notation.SignOptions{SignerSignOptions: notation.SignerSignOptions{SignatureMediaType: c.Format}, ArtifactReference: "registry.example/repo@" + artifact.Digest.String(), UserMetadata: map[string]string{"signed-by": "stranger"}}); err != nil {
+				panic(err)
+			}
+			r.Event("artifacts-with-a-foreign-signature")
+		}
 		resolved, _ := repo.Resolve(ctx, artifact.Digest.String())
 		ref := "registry.example/repo@" + artifact.Digest.String()
 		aDesc, _, err := notation.SignOCI(ctx, sgn, repo, notation.SignOptions{SignerSignOptions: sopts, ArtifactReference: ref, UserMetadata: c.Metadata})
@@ -245,4 +262,19 @@ func main() {
 	r.RequireAtLeast("blob-round-trips", 72)
 	r.RequireAtLeast("oci-round-trips", 36)
 	r.Finish()
+}
+
+
+// richRepo decorates the descriptor a repository resolves with the optional descriptor fields.
+type richRepo struct{ registry.Repository }
+
+func (r richRepo) Resolve(ctx context.Context, ref string) (ocispec.Descriptor, error) {
+	d, err := r.Repository.Resolve(ctx, ref)
+	if err == nil {
+		d.ArtifactType = "application/vnd.example.artifact"
+		d.URLs = []string{"https://example.invalid/blob"}
+		d.Data = []byte("embedded")
+		d.Platform = &ocispec.Platform{Architecture: "amd64", OS: "linux"}
+	}
+	return d, err
 }
